@@ -446,6 +446,106 @@ theorem oauth_found_order_irrelevant (hosts hosts' : List HHost) (ns pfx : Str)
     · intro H h hm; exact H h (hperm.mem_iff.1 hm)
   cases h1 : findBackend hosts ns pfx <;> cases h2 : findBackend hosts' ns pfx <;> simp_all
 
+/-! #### the stable order of 58bb97c: the hostnames are sorted before the lookup -/
+
+theorem hostLe_trans (a b c : HHost) (h1 : hostLe a b = true) (h2 : hostLe b c = true) : hostLe a c = true := by
+  simp only [hostLe, decide_eq_true_eq] at *
+  exact List.le_trans h1 h2
+
+theorem hostLe_total (a b : HHost) : (hostLe a b || hostLe b a) = true := by
+  simp only [hostLe, Bool.or_eq_true, decide_eq_true_eq]
+  exact List.le_total _ _
+
+theorem insertHost_perm (h : HHost) (l : List HHost) : (insertHost h l).Perm (h :: l) := by
+  induction l with
+  | nil => exact List.Perm.refl _
+  | cons x xs ih =>
+    simp only [insertHost]
+    split
+    · exact List.Perm.refl _
+    · exact ((List.Perm.cons x ih).trans (List.Perm.swap h x xs))
+
+theorem sortHosts_perm (hosts : List HHost) : (sortHosts hosts).Perm hosts := by
+  induction hosts with
+  | nil => exact List.Perm.refl _
+  | cons x xs ih =>
+    show (insertHost x (sortHosts xs)).Perm (x :: xs)
+    exact (insertHost_perm x _).trans (List.Perm.cons x ih)
+
+theorem insertHost_pairwise (h : HHost) (l : List HHost) (hl : l.Pairwise (fun a b => hostLe a b = true)) :
+    (insertHost h l).Pairwise (fun a b => hostLe a b = true) := by
+  induction l with
+  | nil => simp [insertHost]
+  | cons x xs ih =>
+    rw [List.pairwise_cons] at hl
+    simp only [insertHost]
+    split
+    · rename_i hle
+      refine List.pairwise_cons.2 ⟨?_, List.pairwise_cons.2 hl⟩
+      intro y hy
+      rcases List.mem_cons.1 hy with rfl | hy
+      · exact hle
+      · exact hostLe_trans h x y hle (hl.1 y hy)
+    · rename_i hnle
+      have hxh : hostLe x h = true := by
+        have := hostLe_total h x
+        simp only [Bool.or_eq_true] at this
+        rcases this with t | t
+        · exact absurd t hnle
+        · exact t
+      refine List.pairwise_cons.2 ⟨?_, ih hl.2⟩
+      intro y hy
+      rcases List.mem_cons.1 ((insertHost_perm h xs).mem_iff.1 hy) with rfl | hy
+      · exact hxh
+      · exact hl.1 y hy
+
+theorem sortHosts_pairwise (hosts : List HHost) : (sortHosts hosts).Pairwise (fun a b => hostLe a b = true) := by
+  induction hosts with
+  | nil => exact List.Pairwise.nil
+  | cons x xs ih => exact insertHost_pairwise x _ ih
+
+/-- `Hosts().Items()` is a map: one entry per hostname.  Two listings of the same map (any two
+iteration orders) are sorted into the same list -/
+theorem sortHosts_eq_of_perm (hosts hosts' : List HHost) (hperm : hosts.Perm hosts')
+    (hkey : ∀ a ∈ hosts, ∀ b ∈ hosts, a.hostname = b.hostname → a = b) :
+    sortHosts hosts = sortHosts hosts' := by
+  have hp : (sortHosts hosts).Perm (sortHosts hosts') :=
+    (sortHosts_perm hosts).trans (hperm.trans (sortHosts_perm hosts').symm)
+  refine List.Perm.eq_of_pairwise (le := fun a b => hostLe a b = true) ?_ ?_ ?_ hp
+  · intro a b ha hb hab hba
+    have ha' : a ∈ hosts := (sortHosts_perm hosts).mem_iff.1 ha
+    have hb' : b ∈ hosts := hperm.mem_iff.2 ((sortHosts_perm hosts').mem_iff.1 hb)
+    simp only [hostLe, decide_eq_true_eq] at hab hba
+    exact hkey a ha' b hb' (List.le_antisymm hab hba)
+  · exact sortHosts_pairwise hosts
+  · exact sortHosts_pairwise hosts'
+
+/-- **findBackendSorted_perm** (58bb97c): with the hostnames sorted the backend found is a function of
+the host SET — the Go map order of `Hosts().Items()` decides nothing any more, not even WHICH of
+several proxies of the namespace is taken (compare `oauth_found_order_irrelevant`) -/
+theorem findBackendSorted_perm (hosts hosts' : List HHost) (ns pfx : Str) (hperm : hosts.Perm hosts')
+    (hkey : ∀ a ∈ hosts, ∀ b ∈ hosts, a.hostname = b.hostname → a = b) :
+    findBackendSorted hosts ns pfx = findBackendSorted hosts' ns pfx := by
+  simp only [findBackendSorted, sortHosts_eq_of_perm hosts hosts' hperm hkey]
+
+/-- everything proved about `findBackend` over EVERY order holds for the sorted one: the backend found
+belongs to the declaring namespace, and it is the same with and without the other namespaces' paths -/
+theorem findBackendSorted_same_namespace (hosts : List HHost) (ns pfx : Str) (p : HPath)
+    (h : findBackendSorted hosts ns pfx = some p) : p.ns = ns :=
+  oauth_backend_same_namespace (sortHosts hosts) ns pfx p h
+
+/-- the first proxy of the namespace in hostname order wins, whatever the listing order -/
+example :
+    findBackendSorted [⟨"h2".toList, [⟨"/oauth2".toList, ['a'], "p2".toList⟩]⟩,
+                       ⟨"h0".toList, [⟨"/oauth2".toList, ['b'], "pb".toList⟩]⟩,
+                       ⟨"h1".toList, [⟨"/oauth2".toList, ['a'], "p1".toList⟩]⟩] ['a'] "/oauth2".toList
+      = some ⟨"/oauth2".toList, ['a'], "p1".toList⟩ ∧
+    findBackendSorted [⟨"h1".toList, [⟨"/oauth2".toList, ['a'], "p1".toList⟩]⟩,
+                       ⟨"h2".toList, [⟨"/oauth2".toList, ['a'], "p2".toList⟩]⟩,
+                       ⟨"h0".toList, [⟨"/oauth2".toList, ['b'], "pb".toList⟩]⟩] ['a'] "/oauth2".toList
+      = some ⟨"/oauth2".toList, ['a'], "p1".toList⟩ := by
+  refine ⟨?_, ?_⟩ <;> decide
+
 /-- **the site** (all tables, all configurations of the path): an auth backend configured by
 `oauth` belongs to the namespace of the annotated object -/
 theorem oauth_site_same_namespace (hosts : List HHost) (src : Str) (c : OAuthCfg) (p : HPath) (pfx : Str)
@@ -532,8 +632,8 @@ validateAllowDeny have the modelled shape; THE TABLE of reference sites (all of 
 annotated object's namespace and the raw value); the cache is asked before Userlists().Find; the
 auth-url permission check precedes FindBackend; a certificate taken from a file is parsed; the
 ingress converter (which applies the dynamic config in its constructor) is created before any
-converter runs; the oauth lookup `findBackend` is two nested loops (hosts, paths of the host) with ONE
-return under the test `trimmed path == prefix && path.Backend.Namespace == namespace`, called once with
+converter runs; the oauth lookup `findBackend` sorts the hostnames of the host map and is two nested loops
+(hostnames in sorted order, paths of the host) with ONE return under the test `trimmed path == prefix && path.Backend.Namespace == namespace`, called once with
 the annotation's namespace and the trimmed prefix. -/
 theorem facts_c09 :
     Facts.c09GetterPermission =
@@ -575,10 +675,15 @@ theorem facts_c09 :
     Facts.c09AuthURLCheck =
       ["url.Source != nil && namespace != url.Source.Namespace && !c.options.DynamicConfig.CrossNamespaceServices"] ∧
     Facts.c09AuthURLCheckBeforeFind = true ∧
+    -- findBackend since 58bb97c: the hostnames of the map are collected, sorted, and each host is looked up in
+    -- that order (model: `findBackendSorted`); ONE return under the test with the namespace comparison
     Facts.c09FindBackend =
-      ["if strings.TrimRight(path.Path(), \"/\") == uriPrefix && path.Backend.Namespace == namespace",
+      ["hosts := c.haproxy.Hosts().Items()", "hostnames := make([]string, 0, len(hosts))",
+       "hostnames = append(hostnames, hostname)", "host := hosts[hostname]",
+       "if strings.TrimRight(path.Path(), \"/\") == uriPrefix && path.Backend.Namespace == namespace",
        "return &path.Backend", "return nil"] ∧
-    Facts.c09FindBackendRanges = ["c.haproxy.Hosts().Items()", "host.Paths"] ∧
+    Facts.c09FindBackendRanges = ["hosts", "hostnames", "host.Paths"] ∧
+    Facts.c09FindBackendSort = ["hostnames"] ∧
     Facts.c09OAuthFindBackendArgs = ["namespace, uriPrefix"] ∧
     Facts.c09OAuthNamespaceAndPrefix =
       ["uriPrefix := \"/oauth2\"", "uriPrefix = prefix.Value", "uriPrefix = strings.TrimRight(uriPrefix, \"/\")",
